@@ -63,6 +63,11 @@ func Snapshot() []GInfo {
 // driver maps it to "inconclusive", never to a violation.
 type SpinCap struct{ Dump string }
 
+// Inconclusive marks the panic as a harness-side failure for pbt.
+func (s SpinCap) Inconclusive() string {
+	return "quiescence not reached within 20s; goroutines not durably blocked:\n" + s.Dump
+}
+
 // foreign goroutines (test framework, other packages' background workers) are
 // ignored when they are not durably blocked only if they match these frames.
 var ignoreFrames = []string{"testing.(*M).", "os/signal.", "testing.runFuzzing", "testing.(*F)"}
@@ -75,6 +80,12 @@ func WaitQuiescent() []GInfo {
 		ok := true
 		for j, g := range gs {
 			if j == 0 || durable[g.State] {
+				continue
+			}
+			// Go 1.23 reports a goroutine parked in WaitGroup.Wait as plain "semacquire"; that wait is
+			// durable (only wg.Done from another goroutine ends it), unlike the runtime-internal
+			// semaphores that share the state name.
+			if g.State == "semacquire" && strings.Contains(g.Frames, "sync.(*WaitGroup).Wait(") {
 				continue
 			}
 			ign := false
